@@ -59,8 +59,15 @@ pub broadcast axiom fn ax_cmp_v(a: f64, b: f64) ensures #[trigger] a.partial_cmp
 pub broadcast axiom fn ax_eq_v(a: f64, b: f64) ensures #[trigger] a.eq_spec(&b) == feq(a, b);
 pub broadcast axiom fn ax_cmp_r(a: &f64, b: &f64) ensures #[trigger] a.partial_cmp_spec(&b) == fcmp(*a, *b);
 pub broadcast axiom fn ax_eq_r(a: &f64, b: &f64) ensures #[trigger] a.eq_spec(&b) == feq(*a, *b);
+// IEEE facts about comparison that do not depend on the operands' values (discharged for ALL pairs of
+// f64 by the loop-free Kani harness `ieee_cmp_flip`): a < b  <=>  b > a, equality is symmetric, an
+// unordered pair is unordered both ways; == agrees with partial_cmp.
 pub axiom fn ax_obeys()
     ensures
+        forall|a: f64, b: f64| (#[trigger] fcmp(a, b) == Some(core::cmp::Ordering::Less)) == (fcmp(b, a) == Some(core::cmp::Ordering::Greater)),
+        forall|a: f64, b: f64| (#[trigger] fcmp(a, b) == Some(core::cmp::Ordering::Equal)) == (fcmp(b, a) == Some(core::cmp::Ordering::Equal)),
+        forall|a: f64, b: f64| (#[trigger] fcmp(a, b) is None) == (fcmp(b, a) is None),
+        forall|a: f64, b: f64| #[trigger] feq(a, b) == (fcmp(a, b) == Some(core::cmp::Ordering::Equal)),
         <f64 as AddSpec<f64>>::obeys_add_spec(),
         <f64 as AddSpec<&f64>>::obeys_add_spec(),
         <&f64 as AddSpec<f64>>::obeys_add_spec(),
@@ -159,6 +166,35 @@ pub fn __as_f64<T: ToF64>(x: T) -> (r: f64) ensures r == x.to_f64_spec() { x.__t
 // R13: identity on f64 (see rule R13 of the extractor)
 pub fn __idf(x: f64) -> (r: f64) ensures r == x { x }
 
+// ---- prelude fragment: ideal.rs ----
+// Floating point, layer 2 ("idealised real" mode of DESIGN.md 3.2): machine arithmetic treated as
+// mathematical.  rv maps a float to the real it denotes; rounding, overflow, NaN and signed zero are
+// ignored.  Used only where the property is a statement of real arithmetic.
+pub uninterp spec fn rv(x: f64) -> real;
+pub broadcast axiom fn ax_rv_add(a: f64, b: f64) ensures rv(#[trigger] fadd(a, b)) == rv(a) + rv(b);
+pub broadcast axiom fn ax_rv_sub(a: f64, b: f64) ensures rv(#[trigger] fsub(a, b)) == rv(a) - rv(b);
+pub broadcast axiom fn ax_rv_mul(a: f64, b: f64) ensures rv(#[trigger] fmul(a, b)) == rv(a) * rv(b);
+pub broadcast axiom fn ax_rv_div(a: f64, b: f64) ensures rv(b) != 0real ==> rv(#[trigger] fdiv(a, b)) == rv(a) / rv(b);
+pub broadcast axiom fn ax_rv_neg(a: f64) ensures rv(#[trigger] fneg(a)) == 0real - rv(a);
+pub broadcast axiom fn ax_rv_cmp(a: f64, b: f64)
+    ensures #[trigger] fcmp(a, b) == (if rv(a) < rv(b) { Some(core::cmp::Ordering::Less) }
+        else if rv(a) == rv(b) { Some(core::cmp::Ordering::Equal) } else { Some(core::cmp::Ordering::Greater) });
+pub broadcast axiom fn ax_rv_eq(a: f64, b: f64) ensures #[trigger] feq(a, b) == (rv(a) == rv(b));
+pub broadcast axiom fn ax_rv_max(a: f64, b: f64) ensures rv(#[trigger] fmaxf(a, b)) == (if rv(a) >= rv(b) { rv(a) } else { rv(b) });
+pub broadcast axiom fn ax_rv_min(a: f64, b: f64) ensures rv(#[trigger] fminf(a, b)) == (if rv(a) <= rv(b) { rv(a) } else { rv(b) });
+// (idealised) powf denotes a function of the real values of its arguments
+pub uninterp spec fn rpow(x: real, y: real) -> real;
+pub broadcast axiom fn ax_rv_powf(a: f64, b: f64) ensures rv(#[trigger] fpowf(a, b)) == rpow(rv(a), rv(b));
+pub axiom fn ax_rv_lits()
+    ensures rv(0.0f64) == 0real, rv(1.0f64) == 1real, rv(2.0f64) == 2real, rv(0.5f64) * 2real == 1real;
+pub broadcast group ideal {
+    ax_rv_add, ax_rv_sub, ax_rv_mul, ax_rv_div, ax_rv_neg, ax_rv_cmp, ax_rv_eq, ax_rv_max, ax_rv_min, ax_rv_powf
+}
+// (idealised) integer-to-float casts are exact
+pub broadcast axiom fn ax_rv_u64(n: u64) ensures rv(#[trigger] u64_to_f64(n)) == n as real;
+pub broadcast axiom fn ax_rv_usize(n: usize) ensures rv(#[trigger] usize_to_f64(n)) == n as real;
+pub broadcast group ideal_casts { ax_rv_u64, ax_rv_usize }
+
 #[verifier::external_body] pub struct Node { }
 #[verifier::external_body] pub struct Tables { }
 #[verifier::external_body] pub struct Cache { }
@@ -179,10 +215,11 @@ pub fn recurse_single__chance_outcome(prob: &f64, next: &Node, mut expected: f64
         // the outcome's subtree is visited with the chance reach of ITS path (parent reach x outcome
         // probability) and unchanged player reaches; its payoff enters the expectation weighted by the
         // outcome probability
-        out == fadd(expected, fmul(*prob, sub_spec(*next, fmul(p_chance, *prob), p_player))), // @ob C08.V.chance_reach.product_along_path
+        exists|pc: f64| rv(pc) == rv(p_chance) * rv(*prob)
+            && rv(out) == rv(expected) + rv(*prob) * rv(#[trigger] sub_spec(*next, pc, p_player)), // @ob C08.V.chance_reach.product_along_path
 {
-broadcast use fl;
-proof { ax_obeys(); }
+broadcast use fl; broadcast use ideal;
+proof { ax_obeys(); ax_rv_lits(); }
 
                 let payoff = recurse_single(
                     next,
@@ -202,10 +239,11 @@ pub fn recurse_multi__chance_outcome(prob: &f64, next: &Node, mut expected: f64,
         // the outcome's subtree is visited with the chance reach of ITS path (parent reach x outcome
         // probability) and unchanged player reaches; its payoff enters the expectation weighted by the
         // outcome probability
-        out == fadd(expected, fmul(*prob, sub_spec(*next, fmul(p_chance, *prob), p_player))), // @ob C08.V.chance_reach.product_along_path
+        exists|pc: f64| rv(pc) == rv(p_chance) * rv(*prob)
+            && rv(out) == rv(expected) + rv(*prob) * rv(#[trigger] sub_spec(*next, pc, p_player)), // @ob C08.V.chance_reach.product_along_path
 {
-broadcast use fl;
-proof { ax_obeys(); }
+broadcast use fl; broadcast use ideal;
+proof { ax_obeys(); ax_rv_lits(); }
 
                     let payoff = recurse_multi(
                         next,
@@ -225,7 +263,7 @@ expected
 pub proof fn __canary_must_fail()
     ensures false, // @ob __canary
 {
-    broadcast use fl; ax_obeys();
+    broadcast use fl; broadcast use ideal; ax_obeys(); ax_rv_lits();
 }
 
 } // verus!
